@@ -82,7 +82,16 @@ func fieldOfValue(v ssa.Value) (string, string, ssa.Value, bool) {
 	return "", "", nil, false
 }
 
+// fieldAccesses: the accesses in fn and in the helpers fn calls that the reference tree does not have.
 func fieldAccesses(fn *ssa.Function) []fieldAccess {
+	out := fieldAccessesShallow(fn)
+	for _, h := range newHelpersOf(fn) {
+		out = append(out, fieldAccessesShallow(h)...)
+	}
+	return out
+}
+
+func fieldAccessesShallow(fn *ssa.Function) []fieldAccess {
 	var out []fieldAccess
 	add := func(in ssa.Instruction, t, f string, base ssa.Value, kind string, w bool) {
 		out = append(out, fieldAccess{In: in, Type: t, Field: f, Kind: kind, Write: w, Base: base})
